@@ -32,6 +32,7 @@ import (
 	"errors"
 	"fmt"
 	"regexp"
+	"sort"
 	"strconv"
 	"strings"
 	"time"
@@ -603,8 +604,20 @@ func parseMonthName(parts []string, monthPos int) (string, error) {
 // expression. The words have to be quoted because some of them contain a "."
 // which would otherwise match any character (and swallow the following space
 // or letter).
+//
+// Longer words are tried first, otherwise "after 1900" is read as the keyword
+// "aft" followed by the month "er".
 func dateWordsPattern(words string) string {
-	return strings.Replace(regexp.QuoteMeta(words), `\|`, "|", -1)
+	quoted := strings.Split(words, "|")
+	for i, word := range quoted {
+		quoted[i] = regexp.QuoteMeta(word)
+	}
+
+	sort.SliceStable(quoted, func(i, j int) bool {
+		return len(quoted[i]) > len(quoted[j])
+	})
+
+	return strings.Join(quoted, "|")
 }
 
 var dateRegexp = regexp.MustCompile(
